@@ -115,7 +115,8 @@ def check_paths(sh, holders) -> list[dict]:
     read_by_script = set()
     for h in holders:
         read_by_script |= set(h.read)
-    has_rename_or_drop = any(h.rename or h.drop for h in holders)
+    # K-C06-1 is about RENAME (a DROP never removes a table that has columns, so it cannot orphan a column path)
+    has_rename_or_drop = any(h.rename for h in holders)
     # per-statement inconsistency: a holder uses a column of a table it does not read (scalar sub-query, K-C01-2 seen from the column side)
     orphan_owner = set()
     for h in holders:
